@@ -239,10 +239,14 @@ func runC11(p *Program, r *Result) {
 		var sortCall ssa.CallInstruction
 		for _, c := range callsIn(enc) {
 			n := calleeName(c.Common())
-			if !(n == "sort.Strings" || n == "slices.Sort" || strings.HasPrefix(n, "slices.Sort[")) || len(c.Common().Args) != 1 {
+			if !(n == "sort.Strings" || n == "slices.Sort" || strings.HasPrefix(n, "slices.Sort[") || n == "(sort.StringSlice).Sort" || n == "sort.Sort" || n == "sort.Stable") || len(c.Common().Args) != 1 {
 				continue
 			}
-			if sameLabels(c.Common().Args[0]) {
+			arg := c.Common().Args[0]
+			if mi, isMI := arg.(*ssa.MakeInterface); isMI {
+				arg = mi.X // sort.Sort(sort.StringSlice(l))
+			}
+			if sameLabels(arg) || sameLabels(stripConv(arg)) {
 				sortCall = c
 			}
 		}
